@@ -927,6 +927,11 @@ func Run(c *common.Ctx) error {
 			return fmt.Errorf("%s/empty-then-write: %w", kind, err)
 		}
 	}
+	for _, kind := range []string{"file", "lfsc"} {
+		if err := emptyIdle(c, cf, c.Rng.Fork(), kind); err != nil {
+			return fmt.Errorf("%s/empty-idle: %w", kind, err)
+		}
+	}
 	return nil
 }
 
@@ -1017,6 +1022,74 @@ func recreatedOtherPageSize(c *common.Ctx, r *common.Rand, kind string, syncBetw
 		c.Violate(key+":restore-position", fmt.Sprintf("restored position (%d,%016x), primary (%d,%016x)", rp.txid, rp.chk, p.pos().txid, p.pos().chk), rep)
 	} else if eq, why := img.Equal(want); !eq {
 		c.Violate(key+":restore-image", "the restored database is not the primary's: "+why, rep)
+	}
+	return nil
+}
+
+// emptyIdle: a node with an empty data directory becomes primary while the service already holds the database; the
+// application opens the database file (an empty database at position zero appears) and writes nothing. The service is
+// ahead: syncs on the idle primary adopt its copy.
+func emptyIdle(c *common.Ctx, cf *common.CaseFile, r *common.Rand, kind string) error {
+	dir, err := os.MkdirTemp(c.OutDir, "c14i-")
+	if err != nil {
+		return err
+	}
+	defer os.RemoveAll(dir)
+	e := &env{c: c, r: r, kind: kind, svcDir: filepath.Join(dir, "svc")}
+	_ = os.MkdirAll(e.svcDir, 0o755)
+	e.fc = litefs.NewFileBackupClient(e.svcDir)
+	_ = e.fc.Open()
+	if kind == "lfsc" {
+		cl, err := newCloud(e.svcDir)
+		if err != nil {
+			return err
+		}
+		e.cloud = cl
+		defer cl.srv.Close()
+	}
+	p1, err := e.newPrimary(filepath.Join(dir, "p1"))
+	if err != nil {
+		return err
+	}
+	if err := p1.commit(2); err != nil {
+		p1.node.Close()
+		return err
+	}
+	if err := p1.node.Store.SyncBackup(bg); err != nil {
+		p1.node.Close()
+		return fmt.Errorf("first primary's sync: %v", err)
+	}
+	want, _ := lfs.ReadImage(filepath.Join(p1.dir, "dbs", "db"))
+	p1.node.Close()
+	sp := e.svcPos()
+	p2, err := e.newPrimary(filepath.Join(dir, "p2"))
+	if err != nil {
+		return err
+	}
+	defer p2.node.Close()
+	if _, f, err := p2.node.Store.CreateDB("db"); err == nil {
+		_ = f.Close()
+	}
+	var errs []string
+	for i := 0; i < 3; i++ {
+		e.syncOnce(p2, cf, "empty-idle", fmt.Sprintf("sync %d of the idle primary", i+1), map[posT]bool{sp: true})
+	}
+	c.Evaluations++
+	c.Distinct(kind + ":empty-idle")
+	rep := map[string]any{"kind": "backup-empty-idle", "client": kind, "sync_errors": errs}
+	lp, sv := p2.pos(), e.svcPos()
+	if sv != sp {
+		c.Violate("C14:"+kind+":empty-idle:service", fmt.Sprintf("the service went from %v to %v although the primary never wrote", sp, sv), rep)
+		return nil
+	}
+	if lp != sp {
+		c.Violate("C14:"+kind+":empty-idle:not-adopted", fmt.Sprintf("the service holds the database at %v, the primary an empty one at %v: three syncs on the idle primary (errors: %v) did not adopt the service's copy", sp, lp, errs), rep)
+		return nil
+	}
+	if got, _ := lfs.ReadImage(filepath.Join(p2.dir, "dbs", "db")); got == nil || want == nil {
+		return fmt.Errorf("cannot read images")
+	} else if ok, why := got.Equal(want); !ok {
+		c.Violate("C14:"+kind+":empty-idle:image", "the adopted database differs from the one the service was given: "+why, rep)
 	}
 	return nil
 }
